@@ -8,7 +8,8 @@ RULE = ("simulated races as in C01 plus small sample queues (queue.Full), down-s
         "periodic post-processing tick; every trace is projected to pipeline events (request/ship/deliverU/postprocess/handover/deliverR) "
         "carrying the ids that moved and replayed through Samples.step; signature = model branch tags + scenario class")
 TRUSTED = ["the simulator's rules stand for Thespian", "pickle/zlib round trip of the in-memory store memento is exercised, not modelled",
-           "dependent timings (composite operations) are not produced by the simulated runner: their service_time records are covered by C18's timing model only"]
+           "dependent timings come from the real runner.Composite / RequestTiming issuing simulated sub-requests; the values of the timings are C18's subject, "
+           "here only their number, labels and sample type are checked (oracle, not modelled: a sample's records travel together and are represented by the sample id)"]
 ASSUMPTIONS = ["fault-free runs"]
 
 
@@ -25,6 +26,23 @@ def gen(ctx):
             # a long element so that the driver's periodic post-processing (every 30 wake-ups of 1 s) fires mid-task
             sc["schedule"].append({"leaf": {"name": "long", "clients": rng.choice([1, 2]), "iterations": rng.choice([18, 24, 40])}})
             sc["svc"]["long"] = 2.0
+        finite = [t for e in sc["schedule"] for t in ([e["leaf"]] if "leaf" in e else e["par"]) if t.get("iterations")]
+        for t in finite:
+            if rng.random() < 0.3:
+                t["warmup_iterations"] = rng.randint(1, 3)
+            if rng.random() < 0.3 and t["name"] != "long":
+                # composite requests: 1-2 concurrent streams of 1-2 sub-requests; each sub-request yields a dependent service_time
+                # record labelled with the sub-request's own operation name and type
+                k = [0]
+
+                def sub():
+                    k[0] += 1
+                    n = f"{t['name']}-sub{k[0]}"
+                    sc["svc"][n] = rng.choice([0.125, 0.25, 0.5])
+                    return n
+
+                t["subs"] = [[sub() for _ in range(rng.randint(1, 2))] for _ in range(rng.randint(1, 2))]
+                sc["svc"][t["name"]] = max(sum(sc["svc"][n] for n in st) for st in t["subs"])  # only used for the time budget
         yield {"scenario": sc, "seed": rng.randrange(1 << 30)}
 
 
@@ -122,16 +140,32 @@ def run(ctx, case):
     # ---------------- direct oracle: records in race control's store vs. the request log of the simulated cluster ----------------
     if res == "until":
         docs = sim.rc_store.docs
-        per = {}
+        subs_of = {t["name"]: [n for st in t["subs"] for n in st] for t in spec.values() if t.get("subs")}
+        per, dep = {}, {}
         for d in docs:
             if d["name"] in ("latency", "service_time", "processing_time"):
                 k = (d["meta"].get("client_id"), d["task"])
-                per.setdefault(k, {"latency": 0, "service_time": 0, "processing_time": 0})[d["name"]] += 1
-                if d["operation"] != d["task"] or d["operation-type"] != "sim":
-                    ctx.fail(cls + ":wrong-labels", "a record carries the wrong operation labels", [d["task"], "sim"], [d["operation"], d["operation-type"]])
-        reqs = {}
+                want_type = "sim-composite" if d["task"] in subs_of else "sim"
+                if d["operation"] == d["task"]:
+                    per.setdefault(k, {"latency": 0, "service_time": 0, "processing_time": 0})[d["name"]] += 1
+                    if d["operation-type"] != want_type:
+                        ctx.fail(cls + ":wrong-labels", "a record carries the wrong operation labels", [d["task"], want_type], [d["operation"], d["operation-type"]])
+                    sid = sim.sample_key_ms.get((d["meta"].get("client_id"), d["task"], d["@timestamp"]))
+                    info = sim.sample_info.get(sid)
+                    if info is not None and (d["sample-type"] == "normal") != info["normal"]:
+                        ctx.fail(cls + ":wrong-sample-type", "a record carries another sample type than its request had", "normal" if info["normal"] else "warmup", d["sample-type"])
+                elif d["name"] == "service_time" and d["operation"] in subs_of.get(d["task"], []) and d["operation-type"] == "sim":
+                    kk = (d["meta"].get("client_id"), d["task"], d["operation"], d["sample-type"])
+                    dep[kk] = dep.get(kk, 0) + 1
+                else:
+                    ctx.fail(cls + ":wrong-labels", "a record carries operation labels that belong neither to its task nor to one of its sub-requests",
+                             [d["task"], want_type, subs_of.get(d["task"], [])], [d["name"], d["operation"], d["operation-type"]])
+        reqs, subreqs = {}, {}
         for r in sim.request_log:
-            reqs[(r["client"], r["task"])] = reqs.get((r["client"], r["task"]), 0) + 1
+            if "parent" in r:
+                subreqs[(r["client"], r["parent"], r["task"])] = subreqs.get((r["client"], r["parent"], r["task"]), 0) + 1
+            else:
+                reqs[(r["client"], r["task"])] = reqs.get((r["client"], r["task"]), 0) + 1
         dropped = sum(1 for e in evs if e["e"] == "request" and not e["obs"]["accepted"])
         if cap == 1 << 20 and factor == 1:
             for k, n in reqs.items():
@@ -141,6 +175,24 @@ def run(ctx, case):
             for k in per:
                 if k not in reqs:
                     ctx.fail(cls + ":phantom-records", f"records for {k} without any request", 0, per[k])
+            # one service_time record per dependent sub-request, with the sub-request's labels and its parent's sample type
+            got_dep = {}
+            for (c, tk, sub, st), n in dep.items():
+                got_dep[(c, tk, sub)] = got_dep.get((c, tk, sub), 0) + n
+            if got_dep != subreqs:
+                ctx.fail(cls + ":dependent-records", "not exactly one service_time record per executed sub-request of a composite request (by client, task, sub-request)",
+                         sorted(subreqs.items()), sorted(got_dep.items()))
+            want_st = {}
+            for sid, info in sim.sample_info.items():
+                if info["task"] in subs_of:
+                    c = next((cc for (cc, tt, _a), s2 in sim.sample_key.items() if s2 == sid), None)
+                    for sub in subs_of[info["task"]]:
+                        kk = (c, info["task"], sub, "normal" if info["normal"] else "warmup")
+                        want_st[kk] = want_st.get(kk, 0) + 1
+            if got_dep == subreqs and dep != want_st:
+                ctx.fail(cls + ":dependent-sample-type", "dependent records do not carry the sample type of their request", sorted(want_st.items()), sorted(dep.items()))
+            ctx.count("dependent-records", sum(dep.values()))
+            ctx.count("warmup-records", sum(1 for d in docs if d["name"] == "latency" and d["sample-type"] == "warmup"))
         else:
             total_req = sum(reqs.values())
             total_lat = sum(v["latency"] for v in per.values())
@@ -159,6 +211,147 @@ def run(ctx, case):
     ctx.sig([sorted(tags), cls], nontrivial=len(evs) > 5)
 
 
+# ---------------------------------------------------------------------------------------------
+# the same pipeline driven directly (no actors) so that sizes far beyond a simulated race are reachable:
+# real Sampler.add / Worker.send_samples / Driver.update_samples / Driver.post_process_samples (SamplePostprocessor) /
+# to_externalizable(clear=True) / bulk_add on stand-in `self` objects
+# ---------------------------------------------------------------------------------------------
+def gen_direct(ctx):
+    import math
+
+    rng = ctx.rng
+    for _ in range(ctx.budget):
+        # log-uniform request counts: batch limits or buffer constants of any plausible size lie inside the range
+        hi = 17 if rng.random() < 0.25 else 12
+        n = int(2 ** rng.uniform(0, hi))
+        workers = rng.choice([1, 1, 2, 3])
+        cap = rng.choice([None, None, None, max(1, n // rng.choice([2, 3, 7])), 16384])  # None = the Worker's default (2^20)
+        factor = rng.choice([1, 1, 1, 2, 3])
+        # the script: which worker issues the next burst of requests, and where ships / post-processing / hand-overs happen
+        script, left = [], n
+        while left > 0:
+            b = min(left, max(1, int(2 ** rng.uniform(0, math.log2(left + 1)))))
+            script.append(["requests", rng.randrange(workers), b])
+            left -= b
+            r = rng.random()
+            if r < 0.45:
+                script.append(["ship", rng.randrange(workers)])
+            if r < 0.25:
+                script.append(["postprocess"])
+            if r < 0.1:
+                script.append(["handover"])
+        yield {"n": n, "workers": workers, "cap": cap, "factor": factor, "script": script}
+
+
+def run_direct(ctx, case):
+    import types as _t
+    from esrally import metrics
+    from esrally.driver import driver
+    from esrally.track import track
+    from harness import sim_race
+
+    cfg = sim_race.make_config({})
+    # the code under test without the simulator's observation wrappers (they may be installed in this process)
+    real = lambda f: getattr(f, "__wrapped__", f)
+    sampler_add, post_process = real(driver.Sampler.add), real(driver.Driver.post_process_samples)
+    W, cap, factor = case["workers"], case["cap"], case["factor"]
+    task = track.Task("direct", track.Operation("direct", "sim"), clients=W)
+    dstore = metrics.metrics_store(cfg=cfg, track="simtrack", challenge="default", read_only=False)
+    rstore = metrics.InMemoryMetricsStore(cfg)
+    sent = []
+    workers = []
+    for w in range(W):
+        ws = _t.SimpleNamespace(sampler=driver.Sampler(start_timestamp=0.0, buffer_size=(1 << 20) if cap is None else cap), worker_id=w,
+                                driver_actor="driver", send=lambda dst, m: sent.append(m))
+        workers.append(ws)
+    drv = _t.SimpleNamespace(raw_samples=[], most_recent_sample_per_client={},
+                             sample_post_processor=driver.SamplePostprocessor(dstore, factor, {}, {}))
+    evs, sid = [], 0
+    small = case["n"] <= 1500
+    # what the throughput calculator is fed with
+    fedbuf = []
+    calc = drv.sample_post_processor.throughput_calculator
+    orig_calc = _t.MethodType(real(driver.ThroughputCalculator.calculate), calc)
+
+    def observed(samples, *a, **k):
+        fedbuf.extend(by_key.get((x.client_id, driver.convert.seconds_to_ms(x.relative_time)), -1) for x in samples)
+        return orig_calc(samples, *a, **k)
+
+    calc.calculate = observed
+    by_key = {}
+    accepted_total = dropped_total = 0
+    for step in list(case["script"]) + [["ship", w] for w in range(W)] + [["postprocess"], ["handover"]]:
+        if step[0] == "requests":
+            _, w, b = step
+            q = workers[w].sampler
+            for _ in range(b):
+                sid += 1
+                before = q.q.qsize()
+                # unique (client, relative time) per sample: 1/1024 s apart, exactly representable
+                t = sid / 1024.0
+                sampler_add(q, task, w, metrics.SampleType.Normal, {}, 1000.0 + t, t, 0.5, 0.25, 0.125, None, 1, "ops", 0.25, None)
+                acc = q.q.qsize() > before
+                accepted_total += acc
+                dropped_total += not acc
+                if acc:
+                    by_key[(w, driver.convert.seconds_to_ms(t))] = sid
+                if small:
+                    evs.append({"e": "request", "w": w, "sid": sid, "obs": {"accepted": acc, "sid": sid}})
+        elif step[0] == "ship":
+            w = step[1]
+            n0 = len(sent)
+            queued = workers[w].sampler.q.qsize()
+            got = driver.Worker.send_samples(workers[w])
+            if len(got) != queued:
+                ctx.fail("direct:ship-incomplete", f"Worker.send_samples shipped {len(got)} of {queued} queued samples (n={case['n']})", queued, len(got))
+            for m in sent[n0:]:
+                ids = [by_key.get((x.client_id, driver.convert.seconds_to_ms(x.relative_time)), -1) for x in m.samples]
+                if small:
+                    evs.append({"e": "ship", "w": w, "obs": {"shipped": ids}})
+                    evs.append({"e": "deliverU", "w": w, "obs": {"received": ids}})
+                driver.Driver.update_samples(drv, m.samples)
+        elif step[0] == "postprocess":
+            before = len(dstore.docs)
+            fedbuf.clear()
+            post_process(drv)
+            if small:
+                stored = [by_key.get((d["meta"]["client_id"], d["relative-time"]), -1) for d in dstore.docs[before:] if d["name"] == "latency"]
+                evs.append({"e": "postprocess", "obs": {"stored": stored, "fed": list(fedbuf)}})
+        elif step[0] == "handover":
+            memento = dstore.to_externalizable(clear=True)
+            before = len(rstore.docs)
+            if small:
+                import pickle, zlib
+                handed = [by_key.get((d["meta"]["client_id"], d["relative-time"]), -1) for d in (pickle.loads(zlib.decompress(memento)) if memento else []) if d["name"] == "latency"]
+                evs.append({"e": "handover", "obs": {"handed": handed}})
+            rstore.bulk_add(memento)
+            if small:
+                added = [by_key.get((d["meta"]["client_id"], d["relative-time"]), -1) for d in rstore.docs[before:] if d["name"] == "latency"]
+                evs.append({"e": "deliverR", "obs": {"added": added}})
+    tags = []
+    if small:
+        m = ctx.model("samples", "replay", {"cap": (1 << 20) if cap is None else cap, "factor": factor, "events": evs})
+        tags = m.get("tags", [])
+        if "diff" in m:
+            ctx.diff("pipeline replay (direct)", m["diff"].get("model"), {k: m["diff"].get(k) for k in ("at", "why", "event", "impl")})
+    # oracle: every accepted sample has its three records at race control (down-sampling may remove some, nothing else does)
+    counts = {"latency": 0, "service_time": 0, "processing_time": 0}
+    for d in rstore.docs:
+        if d["name"] in counts:
+            counts[d["name"]] += 1
+    if cap is None and dropped_total:
+        ctx.fail("direct:dropped-below-capacity", "samples were rejected although the queue (default capacity 2^20, as the Worker configures it) was never full", 0, dropped_total)
+    if factor == 1:
+        if not (counts["latency"] == counts["service_time"] == counts["processing_time"] == accepted_total):
+            ctx.fail("direct:lost-without-cause", f"{accepted_total} accepted samples but records {counts} at race control (n={case['n']}, workers={W})", accepted_total, counts)
+    elif counts["latency"] > accepted_total:
+        ctx.fail("direct:too-many-records", "more records than accepted samples", accepted_total, counts)
+    import math
+    ctx.count("direct-requests", case["n"])
+    ctx.sig(["direct", sorted(tags), int(math.log2(case["n"])) // 2, cap is None, factor, W], nontrivial=case["n"] > 3)
+
+
 STREAMS = [
     Stream("pipeline_on_simulated_races", gen, run, quick=320, thorough=12000, shards=16),
+    Stream("pipeline_direct_sizes", gen_direct, run_direct, quick=160, thorough=4000, shards=16),
 ]
